@@ -160,10 +160,10 @@ func (u *uploader) createReport(start time.Time, expiryDate string, countFiles [
 		for k, v := range x.Count {
 			if counter.IsStackCounter(k) {
 				// stack
-				prog.Stacks[k] += int64(v)
+				prog.Stacks[k] = addSaturating(prog.Stacks[k], v)
 			} else {
 				// counter
-				prog.Counters[k] += int64(v)
+				prog.Counters[k] = addSaturating(prog.Counters[k], v)
 			}
 			succeeded = true
 			fok = true
@@ -318,6 +318,16 @@ func findProgReport(meta map[string]string, report *telemetry.Report) *telemetry
 	}
 	report.Programs = append(report.Programs, &prog)
 	return &prog
+}
+
+// addSaturating returns sum+v, sticking at math.MaxInt64 instead of wrapping
+// to a negative number. Counter cells are unsigned and saturate at 2^64-1,
+// but report values are int64.
+func addSaturating(sum int64, v uint64) int64 {
+	if v > math.MaxInt64 || sum > math.MaxInt64-int64(v) {
+		return math.MaxInt64
+	}
+	return sum + int64(v)
 }
 
 // computeRandom returns a cryptographic random float64 in the range [0, 1],
